@@ -39,13 +39,13 @@ Contract_Offsets ==
   stage = "done" => \A c \in 0..Sigma - 1 : r.a[c] = Cardinality({ i \in 0..n - 1 : Ch(t, i) < c })
 (* stage 5: every B* suffix sits at its final index, nothing was clobbered *)
 Contract_Copy ==
-  (stage = "done" /\ Variant = "code") =>
+  (stage = "done" /\ Variant \in {"code", "impl"}) =>
     /\ r.cp.ok
     /\ \A q \in 1..r.m : r.sa5[Rank(r.sb[q])] = Flag(t, r.sb[q])
     /\ Cardinality(r.cp.live) = r.m
 (* stage 6: every B suffix sits at its final index; positive = the suffix in front is of type A *)
 Contract_InduceB ==
-  (stage = "done" /\ Variant = "code") =>
+  (stage = "done" /\ Variant \in {"code", "impl"}) =>
     /\ r.ib.ok
     /\ \A p \in 0..n - 1 :
          IF IsB(t, p) THEN /\ Abs(r.ib.sa[Rank(p)]) = p
@@ -53,7 +53,7 @@ Contract_InduceB ==
          ELSE r.ib.sa[Rank(p)] = G
 (* stage 7: the suffix array *)
 Contract_Result ==
-  (stage = "done" /\ Variant = "code") =>
+  (stage = "done" /\ Variant \in {"code", "impl"}) =>
     /\ r.ia.ok
     /\ \A x \in 0..n - 1 : r.ia.sa[x] = SAof(t)[x + 1]
 (* stage 3, the reduction the two sorting engines rest on: ordering the B*   *)
